@@ -424,10 +424,15 @@ fn constant_data_from_storage_offset<T: LeBytes + FromByteArray>(
     offset: usize,
     name: Option<&str>,
 ) -> Result<ConstantNodeData<T>, LoadError> {
-    let n_elements: usize = shape.iter().product();
-    let byte_len = n_elements * std::mem::size_of::<T>();
+    // Shape and offset come from the model file: compute the byte range with
+    // checked arithmetic so that oversized values are errors.
+    let byte_range = shape
+        .iter()
+        .try_fold(1usize, |n_elements, &size| n_elements.checked_mul(size))
+        .and_then(|n_elements| n_elements.checked_mul(std::mem::size_of::<T>()))
+        .and_then(|byte_len| Some(offset..offset.checked_add(byte_len)?));
 
-    let Some(bytes) = storage.data().get(offset..offset + byte_len) else {
+    let Some(bytes) = byte_range.and_then(|range| storage.data().get(range)) else {
         return Err(load_error!(GraphError, name, "invalid tensor data offset"));
     };
 
